@@ -185,10 +185,11 @@ func runVerify(w *World, opt verifyOpts) int {
 				continue
 			}
 			if kf.matches(o) {
-				o.Finding = kf
+				o.Findings = append(o.Findings, kf)
 				if kf.Region != "" {
 					if h, err := regionHyp(w, o, kf.Region); err == nil {
 						o.Hyps = append(o.Hyps, Not(h))
+						o.HypOf = append(o.HypOf, kf)
 						o.Carved = true
 					} else {
 						fmt.Fprintln(os.Stderr, "govc: known finding region:", err)
@@ -251,30 +252,37 @@ func runVerify(w *World, opt verifyOpts) int {
 		}
 		nObl++
 		ok := o.Result == "unsat"
-		if o.Finding != nil && o.Finding.Region == "" {
-			// finding without a region: the whole obligation is the finding
-			if !ok {
-				if !kfPrinted[o.Finding] {
-					lines = append(lines, fmt.Sprintf("KNOWN-FINDING: property=%s %s [%s]", opt.prop, o.Finding.What, o.Name))
-					kfPrinted[o.Finding] = true
-				}
-				rec.Note = "known finding (whole obligation): " + o.Finding.What
-				carveNotes = append(carveNotes, o.Name+": not discharged, known finding: "+o.Finding.What)
-				recs = append(recs, rec)
-				nObl--
-				continue
+		var whole *KnownFinding
+		for _, kf := range o.Findings {
+			if kf.Region == "" {
+				whole = kf
 			}
 		}
-		if o.Carved {
-			if o.FullResult != "unsat" && ok {
-				if !kfPrinted[o.Finding] {
-					lines = append(lines, fmt.Sprintf("KNOWN-FINDING: property=%s %s [%s outside region: %s]", opt.prop, o.Finding.What, o.Name, o.Finding.Region))
-					kfPrinted[o.Finding] = true
+		if whole != nil && !ok {
+			// finding without a region: the whole obligation is the finding
+			if !kfPrinted[whole] {
+				lines = append(lines, fmt.Sprintf("KNOWN-FINDING: property=%s %s [%s]", opt.prop, whole.What, o.Name))
+				kfPrinted[whole] = true
+			}
+			rec.Note = "known finding (whole obligation): " + whole.What
+			carveNotes = append(carveNotes, o.Name+": not discharged, known finding: "+whole.What)
+			recs = append(recs, rec)
+			nObl--
+			continue
+		}
+		if o.Carved && ok {
+			for j, kf := range o.HypOf {
+				if o.DropRes[j] != "unsat" {
+					// the obligation still fails inside this finding's region: the defect is still there
+					if !kfPrinted[kf] {
+						lines = append(lines, fmt.Sprintf("KNOWN-FINDING: property=%s %s %s [%s proved outside region: %s]", opt.prop, kf.ID, kf.What, o.Name, kf.Region))
+						kfPrinted[kf] = true
+					}
+					rec.Note += "proved under NOT(" + kf.Region + "); "
+					carveNotes = append(carveNotes, o.Name+": proved only under NOT("+kf.Region+"): "+kf.What)
+				} else {
+					rec.Note += "finding " + kf.ID + " no longer needed (obligation discharges without its carve-out); "
 				}
-				rec.Note = "discharged outside known-finding region " + o.Finding.Region
-				carveNotes = append(carveNotes, o.Name+": proved only under NOT("+o.Finding.Region+"): "+o.Finding.What)
-			} else if o.FullResult == "unsat" {
-				rec.Note = "known finding no longer reproduces: full obligation discharged"
 			}
 		}
 		if ok {
